@@ -199,6 +199,9 @@ func TestVerifSCReplay(t *testing.T) {
 		} else {
 			c = New(thr)
 		}
+		// the documented settings of the length pre-filter: the default, "all values are candidates", "identical length only"
+		// (a string equal to a known value has its length), and one in between
+		c.MinDiffRatio = []float64{c.MinDiffRatio, 0, 1.0, 0.5}[(n/9)%4]
 		cid := fmt.Sprintf("r%d", n)
 		rec.out.Emit(map[string]interface{}{"ev": "reset", "keepmemo": false}) // keeps the trace spec's state small
 		rec.out.Emit(map[string]interface{}{"ev": "new", "c": cid})
@@ -346,6 +349,7 @@ func TestVerifSCTrace(t *testing.T) {
 			fs = fs[:0]
 		}
 		c = New(thr, fs...)
+		c.MinDiffRatio = []float64{c.MinDiffRatio, 1.0, 0}[n%3]
 		cid := fmt.Sprintf("t%d", n)
 		rec.out.Emit(map[string]interface{}{"ev": "reset", "keepmemo": false})
 		rec.out.Emit(map[string]interface{}{"ev": "new", "c": cid})
